@@ -19,7 +19,7 @@ BOUNDS = {
 }
 ASSUMPTIONS = [
     'only the first poll segment of the async handlers is executed: from the match on the request to the first call into GraphDatabaseService / the first reply; '
-    'what happens behind those calls (SQL row filters by room) and allowed_room maintenance across several events are outside',
+    'what happens behind those calls (SQL row filters by room) and allowed_room maintenance across sequences of events are outside (single admission / revocation events are covered)',
     'tokio::sync::Mutex::lock is uncontended (Ready)',
 ]
 
